@@ -3,6 +3,7 @@
 //!   verif_replay <unit> replay <json>    -> re-run one recorded witness
 //! Output: one JSON object per line on stdout.
 mod u3;
+mod u9;
 mod util;
 
 fn main() {
@@ -15,6 +16,8 @@ fn main() {
   let code = match (args[1].as_str(), args[2].as_str()) {
     ("u3", "find") => u3::find(rest),
     ("u3", "replay") => u3::replay(rest),
+    ("u9", "find") => u9::find(rest),
+    ("u9", "replay") => u9::replay(rest),
     _ => {
       eprintln!("unknown unit/command");
       2
